@@ -1,28 +1,133 @@
-// ---- prelude/str.rs: opaque `&str` API (assumed contracts on core::str and u64::from_str) ----
-// Verus has no byte/char view of `str`.  A string slice is an opaque value `Str`; the lexical primitives the code
-// uses are uninterpreted specification functions.  What is PROVED is the code built on them; what `split`, `find`,
-// `trim`, slicing and integer parsing mean is ASSUMED here (and checked on the real `str` code by the Kani units).
+// ---- prelude/str.rs: `&str` as its bytes (assumed contracts on core::str, with their byte-level meaning spelled out) ----
+// Verus has no byte/char view of `str`.  A string slice is the stand-in `Str`, whose ghost view `b()` is the sequence of
+// its UTF-8 bytes.  Every lexical primitive the code uses is an `external_body` function (ASSUMED contract on std) whose
+// postcondition is a DEFINED specification function over those bytes - `split` is "cut at every separator byte",
+// `find` is "first index", `trim_matches([' ', '\t'])` is "drop SP / HTAB from both ends", slicing is `subrange` - so
+// that the specifications of the units (`specs/range_spec.rs`, unit `gz`) can be written from the RFC grammars over
+// bytes, independently of how the code composes the primitives.  All patterns used are ASCII, for which the byte-level
+// reading of the std functions is exact on any UTF-8 string; the functions whose std meaning depends on Unicode
+// (`trim*` without a pattern) and the slicing panics on non-boundaries carry `is_ascii` / char-boundary preconditions
+// (every `Str` in the units comes from `HeaderValue::to_str`, which only succeeds on visible ASCII and HTAB).
 pub mod strs {
     use vstd::prelude::*;
     #[derive(Clone, Copy)]
-    pub struct Str { pub id: int }
-    pub uninterp spec fn sp_split(s: Str, sep: char) -> Seq<Str>;
-    pub uninterp spec fn sp_split_once(s: Str, sep: char) -> Option<(Str, Str)>;
-    pub uninterp spec fn sp_trim_start(s: Str) -> Str;      // trim_start_matches([' ', '\t'])
-    pub uninterp spec fn sp_trim(s: Str) -> Str;            // trim()
-    pub uninterp spec fn sp_trim_start_ws(s: Str) -> Str;   // trim_start()
-    pub uninterp spec fn sp_trim_end_ws(s: Str) -> Str;     // trim_end()
-    pub uninterp spec fn sp_find(s: Str, c: char) -> Option<usize>;
-    pub uninterp spec fn sp_len(s: Str) -> usize;
-    pub uninterp spec fn sp_slice(s: Str, a: usize, b: usize) -> Str;
-    pub uninterp spec fn sp_u64(s: Str) -> Option<u64>;     // u64::from_str
-    pub uninterp spec fn sp_strip_prefix(s: Str, p: Seq<char>) -> Option<Str>;
-    pub uninterp spec fn sp_is(s: Str, lit: Seq<char>) -> bool;   // s == "literal"
-    pub uninterp spec fn sp_is_nocase(s: Str, lit: Seq<char>) -> bool;   // s.eq_ignore_ascii_case("literal")
-    pub uninterp spec fn sp_starts_with(s: Str, lit: Seq<char>) -> bool;
-    pub uninterp spec fn sp_ends_with(s: Str, lit: Seq<char>) -> bool;
-    pub uninterp spec fn sp_char_boundary(s: Str, i: usize) -> bool;
-    /// `str::split(sep)` as an iterator over its (assumed) element sequence; `split` always yields >= 1 element.
+    pub struct Str { pub g: Ghost<Seq<u8>> }
+    impl Str { pub open spec fn b(self) -> Seq<u8> { self.g@ } }
+    pub open spec fn mk(b: Seq<u8>) -> Str { Str { g: Ghost(b) } }
+    /// The bytes of an ASCII literal (`"bytes="@` is its sequence of chars).
+    pub open spec fn lit(p: Seq<char>) -> Seq<u8> { Seq::new(p.len(), |i: int| p[i] as u8) }
+    pub open spec fn is_ascii(s: Seq<u8>) -> bool { forall|i: int| 0 <= i < s.len() ==> #[trigger] s[i] < 0x80u8 }
+    /// `HeaderValue::to_str` succeeds on these bytes only (http 1.x: `b >= 32 && b < 127 || b == b'\t'`).
+    pub open spec fn is_visible(s: Seq<u8>) -> bool { forall|i: int| 0 <= i < s.len() ==> ((0x20u8 <= #[trigger] s[i] && s[i] < 0x7fu8) || s[i] == 0x09u8) }
+    /// Index i is a UTF-8 char boundary of s (i <= len): the end, or not a continuation byte.
+    pub open spec fn boundary(s: Seq<u8>, i: int) -> bool { i == s.len() || (0 <= i < s.len() && !(0x80u8 <= s[i] && s[i] <= 0xbfu8)) }
+
+    /// First index >= from holding byte c.
+    pub open spec fn first_at(s: Seq<u8>, from: int, c: u8) -> Option<int>
+        decreases s.len() - from
+    {
+        if from < 0 || from >= s.len() { None } else if s[from] == c { Some(from) } else { first_at(s, from + 1, c) }
+    }
+    pub proof fn lemma_first_at(s: Seq<u8>, from: int, c: u8)
+        ensures first_at(s, from, c) matches Some(q) ==> (from <= q < s.len() && s[q] == c && forall|j: int| from <= j < q ==> s[j] != c),
+                (first_at(s, from, c) is None && from >= 0) ==> forall|j: int| from <= j < s.len() ==> s[j] != c,
+        decreases s.len() - from
+    { if from >= 0 && from < s.len() && s[from] != c { lemma_first_at(s, from + 1, c); } }
+
+    /// `split(sep)`: cut at every separator byte; always at least one piece, pieces may be empty.
+    pub open spec fn split_b(s: Seq<u8>, sep: u8) -> Seq<Seq<u8>>
+        decreases s.len()
+    {
+        match first_at(s, 0, sep) {
+            None => seq![s],
+            Some(q) => if 0 <= q < s.len() { seq![s.subrange(0, q)] + split_b(s.subrange(q + 1, s.len() as int), sep) } else { seq![s] },
+        }
+    }
+    pub open spec fn strs_of(p: Seq<Seq<u8>>) -> Seq<Str> { Seq::new(p.len(), |i: int| mk(p[i])) }
+    pub proof fn lemma_split_ascii(s: Seq<u8>, sep: u8)
+        requires is_ascii(s)
+        ensures split_b(s, sep).len() >= 1, forall|k: int| 0 <= k < split_b(s, sep).len() ==> is_ascii(#[trigger] split_b(s, sep)[k]),
+        decreases s.len()
+    {
+        lemma_first_at(s, 0, sep);
+        if let Some(q) = first_at(s, 0, sep) {
+            let rest = s.subrange(q + 1, s.len() as int);
+            lemma_split_ascii(rest, sep);
+            assert forall|k: int| 0 <= k < split_b(s, sep).len() implies is_ascii(#[trigger] split_b(s, sep)[k]) by {
+                if k > 0 { assert(split_b(s, sep)[k] == split_b(rest, sep)[k - 1]); }
+            }
+        }
+    }
+    /// Number of leading bytes satisfying `p` / end index once the trailing bytes satisfying `p` are removed.
+    pub open spec fn lead(s: Seq<u8>, p: spec_fn(u8) -> bool, from: int) -> int
+        decreases s.len() - from
+    { if 0 <= from < s.len() && p(s[from]) { lead(s, p, from + 1) } else { from } }
+    pub open spec fn trail(s: Seq<u8>, p: spec_fn(u8) -> bool, to: int, floor: int) -> int
+        decreases to - floor
+    { if floor < to <= s.len() && p(s[to - 1]) { trail(s, p, to - 1, floor) } else { to } }
+    pub proof fn lemma_lead(s: Seq<u8>, p: spec_fn(u8) -> bool, from: int)
+        requires 0 <= from <= s.len()
+        ensures from <= lead(s, p, from) <= s.len(), forall|j: int| from <= j < lead(s, p, from) ==> p(s[j]), lead(s, p, from) < s.len() ==> !p(s[lead(s, p, from)]),
+        decreases s.len() - from
+    { if from < s.len() && p(s[from]) { lemma_lead(s, p, from + 1); } }
+    pub proof fn lemma_trail(s: Seq<u8>, p: spec_fn(u8) -> bool, to: int, floor: int)
+        requires 0 <= floor <= to <= s.len()
+        ensures floor <= trail(s, p, to, floor) <= to, forall|j: int| trail(s, p, to, floor) <= j < to ==> p(s[j]), trail(s, p, to, floor) > floor ==> !p(s[trail(s, p, to, floor) - 1]),
+        decreases to - floor
+    { if floor < to && p(s[to - 1]) { lemma_trail(s, p, to - 1, floor); } }
+    pub open spec fn is_ows() -> spec_fn(u8) -> bool { |c: u8| c == 0x20u8 || c == 0x09u8 }
+    /// Unicode White_Space restricted to ASCII (what `trim*()` strips from an ASCII string).
+    pub open spec fn is_ws() -> spec_fn(u8) -> bool { |c: u8| c == 0x20u8 || (0x09u8 <= c && c <= 0x0du8) }
+    pub open spec fn trim_start_b(s: Seq<u8>, p: spec_fn(u8) -> bool) -> Seq<u8> { s.subrange(lead(s, p, 0), s.len() as int) }
+    pub open spec fn trim_end_b(s: Seq<u8>, p: spec_fn(u8) -> bool) -> Seq<u8> { s.subrange(0, trail(s, p, s.len() as int, 0)) }
+    pub open spec fn trim_b(s: Seq<u8>, p: spec_fn(u8) -> bool) -> Seq<u8> { s.subrange(lead(s, p, 0), trail(s, p, s.len() as int, lead(s, p, 0))) }
+    pub proof fn lemma_trim_ascii(s: Seq<u8>, p: spec_fn(u8) -> bool)
+        requires is_ascii(s)
+        ensures is_ascii(trim_start_b(s, p)), is_ascii(trim_end_b(s, p)), is_ascii(trim_b(s, p)), trim_b(s, p).len() <= s.len(),
+    { lemma_lead(s, p, 0); lemma_trail(s, p, s.len() as int, 0); lemma_trail(s, p, s.len() as int, lead(s, p, 0)); }
+
+    pub open spec fn starts_with_b(s: Seq<u8>, p: Seq<u8>) -> bool { s.len() >= p.len() && s.subrange(0, p.len() as int) =~= p }
+    pub open spec fn ends_with_b(s: Seq<u8>, p: Seq<u8>) -> bool { s.len() >= p.len() && s.subrange(s.len() - p.len(), s.len() as int) =~= p }
+    pub open spec fn lower(c: u8) -> u8 { if 0x41u8 <= c && c <= 0x5au8 { (c + 0x20u8) as u8 } else { c } }
+    pub open spec fn eq_nocase_b(a: Seq<u8>, b: Seq<u8>) -> bool { a.len() == b.len() && forall|i: int| 0 <= i < a.len() ==> lower(#[trigger] a[i]) == lower(b[i]) }
+
+    // ---- decimal numbers ----
+    pub open spec fn is_digit(c: u8) -> bool { 0x30u8 <= c && c <= 0x39u8 }
+    /// `1*DIGIT`
+    pub open spec fn all_digits(s: Seq<u8>) -> bool { s.len() > 0 && forall|i: int| 0 <= i < s.len() ==> is_digit(#[trigger] s[i]) }
+    /// Value of a digit string, unbounded.
+    pub open spec fn dec(s: Seq<u8>) -> nat
+        decreases s.len()
+    { if s.len() == 0 { 0 } else { dec(s.drop_last()) * 10 + (s.last() - 0x30u8) as nat } }
+    /// What the std integer parsers accept (ASSUMED, documented grammar): `["+"] 1*DIGIT` whose value fits the type.
+    pub open spec fn int_from_str(s: Seq<u8>, max: nat) -> Option<nat> {
+        let d = if s.len() > 0 && s[0] == 0x2bu8 { s.subrange(1, s.len() as int) } else { s };
+        if all_digits(d) && dec(d) <= max { Some(dec(d)) } else { None }
+    }
+
+    // ---- the names the units use: each is a DEFINITION over bytes ----
+    pub open spec fn sp_split(s: Str, sep: char) -> Seq<Str> { strs_of(split_b(s.b(), sep as u8)) }
+    pub open spec fn sp_split_once(s: Str, sep: char) -> Option<(Str, Str)> {
+        match first_at(s.b(), 0, sep as u8) { None => None, Some(q) => Some((mk(s.b().subrange(0, q)), mk(s.b().subrange(q + 1, s.b().len() as int)))) }
+    }
+    pub open spec fn sp_trim_start(s: Str) -> Str { mk(trim_start_b(s.b(), is_ows())) }    // trim_start_matches([' ', '\t'])
+    pub open spec fn sp_trim_ows(s: Str) -> Str { mk(trim_b(s.b(), is_ows())) }            // trim_matches([' ', '\t'])
+    pub open spec fn sp_trim(s: Str) -> Str { mk(trim_b(s.b(), is_ws())) }                 // trim() on an ASCII string
+    pub open spec fn sp_trim_start_ws(s: Str) -> Str { mk(trim_start_b(s.b(), is_ws())) }  // trim_start()
+    pub open spec fn sp_trim_end_ws(s: Str) -> Str { mk(trim_end_b(s.b(), is_ws())) }      // trim_end()
+    pub open spec fn sp_find(s: Str, c: char) -> Option<usize> { match first_at(s.b(), 0, c as u8) { Some(q) => Some(q as usize), None => None } }
+    pub open spec fn sp_len(s: Str) -> usize { s.b().len() as usize }
+    pub open spec fn sp_slice(s: Str, a: usize, b: usize) -> Str { mk(s.b().subrange(a as int, b as int)) }
+    pub open spec fn sp_u64(s: Str) -> Option<u64> { match int_from_str(s.b(), u64::MAX as nat) { Some(v) => Some(v as u64), None => None } }
+    pub open spec fn sp_u16(s: Str) -> Option<u16> { match int_from_str(s.b(), u16::MAX as nat) { Some(v) => Some(v as u16), None => None } }
+    pub open spec fn sp_strip_prefix(s: Str, p: Seq<char>) -> Option<Str> { if starts_with_b(s.b(), lit(p)) { Some(mk(s.b().subrange(p.len() as int, s.b().len() as int))) } else { None } }
+    pub open spec fn sp_is(s: Str, l: Seq<char>) -> bool { s.b() =~= lit(l) }
+    pub open spec fn sp_is_nocase(s: Str, l: Seq<char>) -> bool { eq_nocase_b(s.b(), lit(l)) }
+    pub open spec fn sp_starts_with(s: Str, l: Seq<char>) -> bool { starts_with_b(s.b(), lit(l)) }
+    pub open spec fn sp_ends_with(s: Str, l: Seq<char>) -> bool { ends_with_b(s.b(), lit(l)) }
+    pub open spec fn sp_char_boundary(s: Str, i: usize) -> bool { boundary(s.b(), i as int) }
+
+    /// `str::split(sep)` as an iterator over its element sequence.
     pub struct Split { pub rest: Ghost<Seq<Str>> }
     impl Split {
         #[verifier::external_body]
@@ -32,24 +137,26 @@ pub mod strs {
         { unimplemented!() }
     }
     impl Str {
-        #[verifier::external_body] pub fn split(&self, sep: char) -> (r: Split) ensures r.rest@ == sp_split(*self, sep) { unimplemented!() }
-        #[verifier::external_body] pub fn split_once(&self, sep: char) -> (r: Option<(Str, Str)>) ensures r == sp_split_once(*self, sep) { unimplemented!() }
+        #[verifier::external_body] pub fn split(&self, sep: char) -> (r: Split) requires (sep as u32) < 0x80 ensures r.rest@ == sp_split(*self, sep) { unimplemented!() }
+        #[verifier::external_body] pub fn split_once(&self, sep: char) -> (r: Option<(Str, Str)>) requires (sep as u32) < 0x80 ensures r == sp_split_once(*self, sep) { unimplemented!() }
         #[verifier::external_body] pub fn trim_start_matches(&self, pat: [char; 2]) -> (r: Str) requires pat[0] == ' ', pat[1] == '\t' ensures r == sp_trim_start(*self) { unimplemented!() }
-        #[verifier::external_body] pub fn trim(&self) -> (r: Str) ensures r == sp_trim(*self) { unimplemented!() }
-        #[verifier::external_body] pub fn trim_start(&self) -> (r: Str) ensures r == sp_trim_start_ws(*self) { unimplemented!() }
-        #[verifier::external_body] pub fn trim_end(&self) -> (r: Str) ensures r == sp_trim_end_ws(*self) { unimplemented!() }
-        #[verifier::external_body] pub fn find(&self, c: char) -> (r: Option<usize>) ensures r == sp_find(*self, c), r matches Some(h) ==> h < sp_len(*self) { unimplemented!() }
-        #[verifier::external_body] pub fn len(&self) -> (r: usize) ensures r == sp_len(*self) { unimplemented!() }
-        /// `&s[a..b]` (rule R19): the slicing panic conditions are preconditions.
-        #[verifier::external_body] pub fn slice(&self, a: usize, b: usize) -> (r: Str) requires a <= b <= sp_len(*self) ensures r == sp_slice(*self, a, b) { unimplemented!() }
-        /// `split_at(mid)` panics unless `mid` is a char boundary within the string: precondition (ASCII strings: every index <= len is one).
+        #[verifier::external_body] pub fn trim_matches(&self, pat: [char; 2]) -> (r: Str) requires pat[0] == ' ', pat[1] == '\t' ensures r == sp_trim_ows(*self) { unimplemented!() }
+        #[verifier::external_body] pub fn trim(&self) -> (r: Str) requires is_ascii(self.b()) ensures r == sp_trim(*self) { unimplemented!() }
+        #[verifier::external_body] pub fn trim_start(&self) -> (r: Str) requires is_ascii(self.b()) ensures r == sp_trim_start_ws(*self) { unimplemented!() }
+        #[verifier::external_body] pub fn trim_end(&self) -> (r: Str) requires is_ascii(self.b()) ensures r == sp_trim_end_ws(*self) { unimplemented!() }
+        #[verifier::external_body] pub fn find(&self, c: char) -> (r: Option<usize>) requires (c as u32) < 0x80 ensures r == sp_find(*self, c), r matches Some(h) ==> h < sp_len(*self) { unimplemented!() }
+        #[verifier::external_body] pub fn len(&self) -> (r: usize) ensures r == sp_len(*self), r == self.b().len() { unimplemented!() }
+        #[verifier::external_body] pub fn as_bytes(&self) -> (r: &[u8]) ensures r@ == self.b() { unimplemented!() }
+        /// `&s[a..b]` (rule R19): the slicing panic conditions (order, length, char boundaries) are preconditions.
+        #[verifier::external_body] pub fn slice(&self, a: usize, b: usize) -> (r: Str) requires a <= b <= sp_len(*self), boundary(self.b(), a as int), boundary(self.b(), b as int) ensures r == sp_slice(*self, a, b) { unimplemented!() }
+        /// `split_at(mid)` panics unless `mid` is a char boundary within the string: precondition.
         #[verifier::external_body] pub fn split_at(&self, mid: usize) -> (r: (Str, Str)) requires mid <= sp_len(*self), sp_char_boundary(*self, mid) ensures r.0 == sp_slice(*self, 0, mid), r.1 == sp_slice(*self, mid, sp_len(*self)) { unimplemented!() }
-        #[verifier::external_body] pub fn eq_ignore_ascii_case(&self, lit: &str) -> (r: bool) ensures r == sp_is_nocase(*self, lit@) { unimplemented!() }
-        #[verifier::external_body] pub fn starts_with(&self, lit: &str) -> (r: bool) ensures r == sp_starts_with(*self, lit@) { unimplemented!() }
-        #[verifier::external_body] pub fn ends_with(&self, lit: &str) -> (r: bool) ensures r == sp_ends_with(*self, lit@) { unimplemented!() }
+        #[verifier::external_body] pub fn eq_ignore_ascii_case(&self, l: &str) -> (r: bool) ensures r == sp_is_nocase(*self, l@) { unimplemented!() }
+        #[verifier::external_body] pub fn starts_with(&self, l: &str) -> (r: bool) ensures r == sp_starts_with(*self, l@) { unimplemented!() }
+        #[verifier::external_body] pub fn ends_with(&self, l: &str) -> (r: bool) ensures r == sp_ends_with(*self, l@) { unimplemented!() }
         #[verifier::external_body] pub fn is_empty(&self) -> (r: bool) ensures r == (sp_len(*self) == 0) { unimplemented!() }
         #[verifier::external_body] pub fn strip_prefix(&self, p: &str) -> (r: Option<Str>) ensures r == sp_strip_prefix(*self, p@) { unimplemented!() }
-        #[verifier::external_body] pub fn is(&self, lit: &str) -> (r: bool) ensures r == sp_is(*self, lit@) { unimplemented!() }
+        #[verifier::external_body] pub fn is(&self, l: &str) -> (r: bool) ensures r == sp_is(*self, l@) { unimplemented!() }
     }
     /// `s == "literal"` (PartialEq<&str> for str): its std meaning, named `sp_is`.
     impl vstd::std_specs::cmp::PartialEqSpecImpl<&'static str> for Str {
@@ -61,6 +168,8 @@ pub mod strs {
         fn eq(&self, o: &&'static str) -> (r: bool) { unimplemented!() }
     }
     pub struct ParseIntError;
-    /// `u64::from_str` (rule R20).
+    /// `u64::from_str` / `u16::from_str` (rule R20).
     #[verifier::external_body] pub fn u64_from_str(s: Str) -> (r: Result<u64, ParseIntError>) ensures r.is_ok() == sp_u64(s).is_some(), r matches Ok(v) ==> v == sp_u64(s).unwrap() { unimplemented!() }
+    #[verifier::external_body] pub fn u16_from_str(s: Str) -> (r: Result<u16, ParseIntError>) ensures r.is_ok() == sp_u16(s).is_some(), r matches Ok(v) ==> v == sp_u16(s).unwrap() { unimplemented!() }
+    pub assume_specification [u8::is_ascii_digit] (c: &u8) -> (r: bool) ensures r == is_digit(*c);
 }
